@@ -13,8 +13,55 @@ const EXPRS: [&str; 4] = [
 ];
 const PATHS: [&str; 6] = ["/dev/mapper/lustre-MDT0000", "/dev/mapper/lustre-MDT0001", "mdt\"2", "trail\\", "/dev/\u{65e5}\u{672c}/a long device name that makes the rendering take a little longer ........................................", "/"];
 
+/// Workloads 100 and up (the Miri pass of C15): 2-3 threads parse and compile the SAME text at the same
+/// time, twice each, keep the trees for a while and drop them in a burst; every program and table must
+/// equal the sequential one. (None of the texts has a time test.) Shared state that `parse` or
+/// `compile` reach without going through std::sync — reference counts of cached trees, `static mut`,
+/// `unsafe impl Send` — is a data race here, which Miri reports whatever the timing.
+fn parse_compile_workload(index: usize) {
+    let expr = EXPRS[index % EXPRS.len()];
+    let threads = 2 + (index / EXPRS.len()) % 2;
+    let (o, t) = parse(expr).expect("parse");
+    let dump = format!("{o:?} {t:?}");
+    let reference = compile(&t, &o).expect("compile");
+    let expected = reference.scheme(PATHS[0]);
+    let expected_table = format!("{:?}", reference.io_map().map(|m| { let mut v: Vec<_> = m.into_iter().collect(); v.sort_by_key(|e| e.0); v }));
+    drop(reference);
+    drop(t);
+    let mut handles = vec![];
+    for _ in 0..threads {
+        handles.push(std::thread::spawn(move || {
+            let mut out = vec![];
+            let mut kept = vec![];
+            for _ in 0..2 {
+                let (o, t) = parse(expr).expect("parse");
+                let c = compile(&t, &o).expect("compile");
+                out.push((format!("{o:?} {t:?}"), c.scheme(PATHS[0]), format!("{:?}", c.io_map().map(|m| { let mut v: Vec<_> = m.into_iter().collect(); v.sort_by_key(|e| e.0); v }))));
+                kept.push((o, t, c));
+            }
+            drop(kept);
+            out
+        }));
+    }
+    let mut bad = 0;
+    for (t, h) in handles.into_iter().enumerate() {
+        for (d, program, table) in h.join().expect("caller thread panicked") {
+            if d != dump || program != expected || table != expected_table {
+                bad += 1;
+                println!("MISMATCH thread {t}: parse/compile of {expr:?} differs from the sequential result");
+            }
+        }
+    }
+    if bad > 0 {
+        std::process::exit(1);
+    }
+}
+
 fn main() {
     let index: usize = std::env::args().nth(1).and_then(|s| s.parse().ok()).unwrap_or(0);
+    if index >= 100 {
+        return parse_compile_workload(index - 100);
+    }
     let expr = EXPRS[index % EXPRS.len()];
     let threads = 2 + (index / EXPRS.len()) % 2;
     let (opts, tree) = parse(expr).expect("parse");
